@@ -114,15 +114,10 @@ func VerifC04Cuts() {
 		if i > 0 {
 			bl = 1
 		}
-		if vrt_Tier() > 0 {
-			// thorough: the first frame in either layout with every body length 0..3, the second frame in
-			// the other layout (every layout and length for every frame ran past 40 minutes)
-			if i == 0 {
-				v2019 = vrt_Choose("v2019", 2) == 1
-				bl = vrt_Choose("bodyLenT", maxBody+1)
-			} else {
-				v2019 = !frames[0].v2019
-			}
+		if vrt_Tier() > 0 && i == 0 {
+			// thorough: the first frame also with a 3-byte body (every layout and length for every frame
+			// ran past 40 minutes)
+			bl = []int{0, 2, 3}[vrt_Choose("bodyLenT", 3)]
 		}
 		idb := vrt_Bytes("id", 2)
 		vrtKSpecial("idsp", 0, vrtEscSpecial, idb)
